@@ -17,7 +17,7 @@ Require Import Grits.Base Grits.Forms Grits.Expand Grits.TcTop Grits.Runtime.
 Require Import Grits.RuntimeFootprint Grits.proofs.RuntimeFacts Grits.proofs.Diamond Grits.proofs.Determinism Grits.proofs.AsyncSync Grits.proofs.RuntimeCheckFacts Grits.proofs.ForkJoin Grits.proofs.DeterminismExamples.
 Require Import Grits.Tc Grits.spec.RtTyping Grits.spec.Topo Grits.proofs.RtSafety Grits.proofs.RtInit Grits.proofs.RtTheorems Grits.proofs.DeterminismTyped Grits.proofs.TopoLin Grits.proofs.TopoStep Grits.proofs.TopoReach Grits.proofs.InitLinear.
 Require Import Grits.spec.SynOk Grits.proofs.RtTcSyn Grits.proofs.RtTheoremsTc Grits.proofs.DeterminismTc.
-Require Import Grits.proofs.LinBridge Grits.proofs.InitAccept Grits.proofs.DeterminismAccept Grits.proofs.TopoStepExt Grits.proofs.TopoFinish Grits.proofs.TopoDup Grits.proofs.InvAll Grits.proofs.DeterminismAll Grits.proofs.AsyncSync Grits.proofs.InvNP Grits.proofs.PlainNP Grits.proofs.DeterminismNP Grits.proofs.Balanced Grits.proofs.RtTheoremsTc Grits.proofs.DeterminismFinal Grits.proofs.NPConfluence.
+Require Import Grits.proofs.LinBridge Grits.proofs.InitAccept Grits.proofs.DeterminismAccept Grits.proofs.TopoStepExt Grits.proofs.TopoFinish Grits.proofs.TopoDup Grits.proofs.InvAll Grits.proofs.DeterminismAll Grits.proofs.AsyncSync Grits.proofs.InvNP Grits.proofs.PlainNP Grits.proofs.DeterminismNP Grits.proofs.Balanced Grits.proofs.RtTheoremsTc Grits.proofs.DeterminismFinal Grits.proofs.NPConfluence Grits.proofs.NPCfree Grits.proofs.NPJoin Grits.proofs.NPJoinA Grits.proofs.NPJoinBC Grits.proofs.NPDeterminism Grits.proofs.DeterminismNPCfree.
 
 Theorem C03_step_is_move : forall md D F c ch, step md D F c ch = sres_of c (move_of md D F c ch).
 Proof. exact step_move. Qed.
@@ -681,6 +681,33 @@ Theorem C03_np_peak_diamond : forall D F teq, teq_laws D teq -> funs_typed D F t
   exists d1 d2, step NP D F c1 b = SStep d1 /\ step NP D F c2 a = SStep d2 /\ cfg_equiv d1 d2.
 Proof. exact np_peak_diamond. Qed.
 
+(* ---- stage 7: determinism of the NON-POLARIZED mode for CONTRACTION-FREE programs (no split, one provider
+   name per process; forwards and drop allowed).  Every peak closes with a balanced join: equal or
+   independent choices in one step, Control f t against Run t / a Rendezvous of t after t has been run
+   until it polls again (the control message as a formal transformation commutes with the steps of its
+   target), Control f t against Control t t' in one step; uniform termination by
+   Balanced.uniform_balanced_bounded. *)
+Theorem C03_np_balanced : forall D F teq, teq_laws D teq -> funs_typed D F teq -> funs_aff F -> nofd_funs F -> cfree_funs F ->
+  forall c a b c1 c2 N, JN D F teq c -> stp NP D F c a = Some c1 -> stp NP D F c b = Some c2 ->
+  (forall m c', bsteps (stp NP D F) m c1 c' -> (m <= N)%nat) ->
+  exists k d1 d2, bsteps (stp NP D F) k c1 d1 /\ bsteps (stp NP D F) k c2 d2 /\ cfg_equiv d1 d2.
+Proof. exact np_balanced. Qed.
+
+Theorem C03_determinism_np_cfree_cfg : forall D F teq, teq_laws D teq -> funs_typed D F teq -> funs_aff F -> nofd_funs F -> cfree_funs F ->
+  forall c pick1 pick2 f1 f2 t1, JN D F teq c -> exec_run f1 pick1 NP D F c = RQuiescent t1 -> (f1 <= f2)%nat ->
+  exists t2, exec_run f2 pick2 NP D F c = RQuiescent t2 /\ cfg_equiv t2 t1 /\ labels t2 ≡ₚ labels t1.
+Proof. exact determinism_np_cfree_cfg. Qed.
+
+Theorem C03_determinism_np_cfree : forall txt p p' pick1 pick2 f1 f2 t1,
+  parse_string txt = POk p -> typecheck p = Accept p' -> in_fragment p' -> cfree_src_b p = true ->
+  exec_run f1 pick1 NP (p_types p') (p_funs p') (init_config p') = RQuiescent t1 -> (f1 <= f2)%nat ->
+  exists t2, exec_run f2 pick2 NP (p_types p') (p_funs p') (init_config p') = RQuiescent t2 /\
+             cfg_equiv t2 t1 /\ labels t2 ≡ₚ labels t1.
+Proof. exact determinism_np_cfree. Qed.
+
+Example C03_example_np_cfree : np_cfree_text example_drop_text = true /\ np_cfree_text example_text = true.
+Proof. exact example_np_cfree. Qed.
+
 Print Assumptions C03_init_linear_accept.
 Print Assumptions C03_topo_runs_core_accept.
 Print Assumptions C03_determinism_core_accept.
@@ -716,3 +743,7 @@ Print Assumptions C03_np_polarized_agree_plain_final.
 Print Assumptions C03_np_peak_cases.
 Print Assumptions C03_np_peak_diamond.
 Print Assumptions uniform_balanced_bounded.
+Print Assumptions C03_np_balanced.
+Print Assumptions C03_determinism_np_cfree_cfg.
+Print Assumptions C03_determinism_np_cfree.
+Print Assumptions C03_example_np_cfree.
